@@ -114,6 +114,10 @@ def check_fold(chk, rule, where, kf, what, *, kind, term=None, sense=None, init_
         chk.undecided(rule, where, "%s: not brought to a fold normal form (%s)" % (what, found_text or "unrecognised construct"))
         return False
     found = kf.text()
+    if "__ctx_" in found:
+        # the fold still depends on which call context holds: it was not brought to one form for all of them
+        chk.undecided(rule, where, "%s: built as %s, which differs between the call contexts of the method; equivalence with %s not established" % (what, found[:200], expected))
+        return False
     if kf.kind in ("OTHER", "LAST", "UNCHANGED", None) or (kf.kind == "ARGSET" and kf.of is None):
         why = _broken_fold(kf, kind)
         if why:
